@@ -167,6 +167,8 @@ pub fn keygen_seed_from_array(h: HashId, levels: &[Level], seed: &[u8], tail: u8
 pub enum Cb {
     Accept,
     Reject,
+    /// reject the first invocation, accept any later one (a storage layer that recovers)
+    RejectThenAccept,
 }
 
 /// `hbs_lms::sign` with a recording callback. Returns the outcome and every callback argument.
@@ -186,6 +188,13 @@ pub fn sign(
                 match cb {
                     Cb::Accept => Ok(()),
                     Cb::Reject => Err(()),
+                    Cb::RejectThenAccept => {
+                        if calls_ref.len() == 1 {
+                            Err(())
+                        } else {
+                            Ok(())
+                        }
+                    }
                 }
             };
             let r = match aux {
